@@ -11,7 +11,7 @@ use serde_json::{json, Value};
 pub fn def() -> PropDef {
     PropDef {
         id: "C18",
-        rule: "adversarial families as full parameter grids: shared pointer chain of k in {0,1,2,8,15,16,17,32,256,4096} segments x segment shape {bare pointer, 1-byte label, 63-byte label, 60 one-byte labels} x record kind {A, NS, MX, SOA, mixed} x packet size {1K..128K}, over-long label runs (up to 8000 labels) shared by all records, dense OPT option lists up to 65535 bytes, pairs (fresh unknown type, record of type t in 1..=260 naming that type in its data) sharing a 120-label name, plus every input of the L1 byte sweep; oracle: steps <= 64*len+4096 on every input and, inside each family, steps/len at double size <= 1.25 x steps/len + 1; distinct classes = (family shape, accepted?, steps-per-byte bucket)",
+        rule: "adversarial families as full parameter grids: shared pointer chain of k in {0,1,2,8,15,16,17,32,256,4096} segments x segment shape {bare pointer, 1-byte label, 63-byte label, 60 one-byte labels} x record kind {A, NS, MX, SOA, mixed} x packet size {1K..128K}, over-long label runs (up to 8000 labels) shared by all records, dense OPT option lists up to 65535 bytes, pairs (fresh unknown type, record of type t in 1..=260 naming that type in its data) sharing a 120-label name, plus every input of the L1 byte sweep; oracle: steps <= 64*len+4096 on every input and, inside each family, steps/len at double size <= 1.25 x steps/len + 1; and, for work done outside the counted steps, wall-clock time of at least 100 ms must not grow more than 3.2-fold when the size doubles (minimum of three runs); distinct classes = (family shape, accepted?, steps-per-byte bucket)",
         run,
         replay,
         bounds: |t| json!({"sizes": sizes(t), "chains": CHAINS, "segment_shapes": 4, "record_kinds": 5, "L1_tail": t.pick(5, 6)}),
@@ -185,19 +185,33 @@ fn opt_packet(size: usize, olen: usize) -> Vec<u8> {
     let n = room / (4 + olen);
     let rdlen = n * (4 + olen);
     p.extend_from_slice(&(rdlen as u16).to_be_bytes());
-    for _ in 0..n {
-        p.extend_from_slice(&[0, 8]);
+    for i in 0..n {
+        // option codes: all alike for even sizes of the parameter, all distinct otherwise
+        let code: u16 = if olen % 2 == 0 { 8 } else { 0x100 + i as u16 };
+        p.extend_from_slice(&code.to_be_bytes());
         p.extend_from_slice(&(olen as u16).to_be_bytes());
         p.extend(std::iter::repeat(0u8).take(olen));
     }
     p
 }
 
+thread_local! {
+    static LAST_WALL_US: std::cell::Cell<u64> = const { std::cell::Cell::new(0) };
+}
+
 fn measure(x: &[u8]) -> Result<(u64, bool), String> {
     subj::arm_steps(x.len());
+    let t0 = std::time::Instant::now();
     let r = caught(|| subj::parse(x).is_ok());
+    let wall = t0.elapsed();
+    LAST_WALL_US.with(|w| w.set(wall.as_micros() as u64));
     let steps = verif_hooks::steps();
     subj::disarm_steps();
+    // work done in loops that pass no hook point does not show in the step count; as a coarse second line a parse
+    // must not take longer than 2 s + 50 us per byte (the explored inputs take well under 10 ms each on a loaded machine)
+    if r.is_ok() && wall.as_micros() as u64 > 2_000_000 + 50 * x.len() as u64 {
+        return Err(format!("wall-clock bound exceeded: parsing {} bytes took {} ms ({} hook steps)", x.len(), wall.as_millis(), steps));
+    }
     match r {
         Ok(acc) => Ok((steps, acc)),
         Err(p) => Err(p),
@@ -206,13 +220,34 @@ fn measure(x: &[u8]) -> Result<(u64, bool), String> {
 
 fn family(fam: &str, params: &Value, build: &dyn Fn(usize) -> Vec<u8>, tier: Tier, rep: &mut Report) {
     let mut prev: Option<(usize, f64)> = None;
+    let mut prev_wall: Option<(usize, u64)> = None;
     for &s in &sizes(tier) {
         let x = build(s);
         rep.transitions += 1;
         rep.states += 1;
-        match measure(&x) {
+        let m = measure(&x);
+        // second line for work done outside the hook points: wall-clock time, looked at only where it is large
+        // enough to mean something (>= 100 ms; unchanged code needs about a millisecond for these inputs). Growth
+        // by more than 3.2x when the size doubles, confirmed as the minimum of three runs, is quadratic work.
+        if m.is_ok() {
+            let mut wall = LAST_WALL_US.with(|w| w.get());
+            if wall >= 100_000 {
+                for _ in 0..2 {
+                    let _ = measure(&x);
+                    wall = wall.min(LAST_WALL_US.with(|w| w.get()));
+                }
+            }
+            if let Some((ps, pw)) = prev_wall {
+                if x.len() >= 2 * ps - 200 && wall >= 100_000 && pw >= 10_000 && wall as f64 > 3.2 * pw as f64 {
+                    rep.violation("superlinear_wall_clock", format!("family {} {}: {} ms at {} bytes but {} ms at {} bytes (work outside the counted steps grows faster than the input)", fam, params, wall / 1000, x.len(), pw / 1000, ps), json!({"family": fam, "params": params, "size": s}));
+                    return;
+                }
+            }
+            prev_wall = Some((x.len(), wall));
+        }
+        match m {
             Err(p) => {
-                let sig = if p.contains("step ceiling") { "steps_exceed_absolute_bound".to_string() } else { format!("parse:panic:{}", panic_site(&p)) };
+                let sig = if p.contains("step ceiling") { "steps_exceed_absolute_bound".to_string() } else if p.contains("wall-clock bound") { "wall_clock_exceeds_bound".to_string() } else { format!("parse:panic:{}", panic_site(&p)) };
                 rep.violation(&sig, format!("family {} {} at size {}: {}", fam, params, x.len(), p), json!({"family": fam, "params": params, "size": s}));
                 return;
             }
@@ -276,7 +311,7 @@ fn run(ctx: &mut Ctx, rep: &mut Report) {
         }
         family("refer", &params, &|s| refer_back_packet(s, t), tier, rep);
     }
-    for olen in [0usize, 1, 4, 100] {
+    for olen in [0usize, 1, 3, 4, 100] {
         gi += 1;
         if !ctx.mine(gi) {
             continue;
